@@ -32,7 +32,7 @@ func (c11) Cases(tier string) int {
 }
 
 func (c11) Rule() string {
-	return "one plan (planned once through GetPlans, also taken from an AutomaticQueryPlanCache) executed 8 (quick) / 32 (thorough) times concurrently and 3 times sequentially, each execution with its own variable values (argument ids, @include flags; for operations whose variables have defaults some requests send no variables at all or only some) and its own context value; built with -race; checked: a deep structural print of the plan (step queries, selection sets, fragment definitions, variables, insertion points, scrub table) is identical before and after; every outbound call carries only the variables of the request whose context it carries, with that request's values; every response equals a freshly planned solitary execution of the same request and the Lean monolith; on the caching gateway a sequence of hash-less requests whose texts differ only in significant white space is answered like by a gateway that has seen nothing else; non-trivial = the plan has at least one dependent step and a variable used in it; distinct = distinct (query, variable assignment)"
+	return "one plan (planned once through GetPlans, also taken from an AutomaticQueryPlanCache) executed 8 (quick) / 32 (thorough) times concurrently and 3 times sequentially, each execution with its own variable values (argument ids, @include flags; for operations whose variables have defaults some requests send no variables at all or only some) and its own context value; built with -race; checked: a deep structural print of the plan (step queries, selection sets, fragment definitions, variables, insertion points, scrub table) is identical before and after; every outbound call carries only the variables of the request whose context it carries, with that request's values; every response equals a freshly planned solitary execution of the same request and the Lean monolith; on the caching gateway a sequence of hash-less requests whose texts differ only in significant white space is answered like by a gateway that has seen nothing else; non-trivial = the plan has at least one dependent step and a variable used in it; distinct = distinct (query, variable assignment); half of the cases with services that overwrite the variables map they are handed (the request's variables must be unchanged afterwards, L0.variables-own-map); every fourth case a net-twin case with cached plans and 2-7 concurrent requests on the client library's network queryers (race detector on)"
 }
 
 var c11Queries = []string{
